@@ -9,7 +9,7 @@ from oasmc.engine import digest_arrays
 ID = "C07"
 RULE = (
     "complete product per part: (aero) asymmetric full-span surface sets x nx x ny x alpha x beta x omega x cg vs their reflection; "
-    "(struct) asymmetric beams x tube/wingbox x generic loads vs reflection; (as) asymmetric aerostructural models vs reflection; "
+    "(struct) asymmetric beams x tube/wingbox x generic loads vs reflection; (as) asymmetric aerostructural models (wing alone, wing + tail in both list orders) vs reflection; "
     "(selfsym) mirror-symmetric full-span aerostructural models; (geom) left- vs right-half Geometry under each design variable and value; "
     "non-trivial = the compared field is non-zero and (for reflections) the configuration differs from its mirror image"
 )
